@@ -32,7 +32,10 @@ struct World {
         for (int k = 1; k <= span; ++k) {
             ChainSim::BlockSpec s; s.prev = prev; s.height = ++h; s.time = ++t; s.extra_nonce = id * 1000 + k; s.cb_value = 0;
             s.cb_spk = CScript() << OP_TRUE;
-            const bool last = k == span;
+            // the defect sits in the block the model block stands for: the last one of a header-only chain (spans 288/289), the
+            // first one of a fully delivered chain (so that the chain fails as a unit, as the model treats it)
+            const bool full = span > 1 && span < 200;
+            const bool last = full ? k == 1 : k == span;
             if (last && kind == "badacc") s.cb_height = h + 1;
             if (last && kind == "badconn") {
                 CMutableTransaction tx;
@@ -60,7 +63,12 @@ struct World {
         }
         else if (op == "block") {
             const Blk& B = blks.at(a[1].getInt<int>());
-            for (size_t k = 0; k + 1 < B.chain.size(); ++k) { BlockValidationState st; if (!sim->SubmitHeader(static_cast<const CBlockHeader&>(*B.chain[k]), st)) break; }
+            // spans 288/289 stand for header-only chains (C58); every other span > 1 is a real chain whose blocks are all delivered
+            const bool full = B.chain.size() > 1 && B.chain.size() < 200;
+            for (size_t k = 0; k + 1 < B.chain.size(); ++k) {
+                if (full) { sim->SubmitBlock(B.chain[k], true); continue; }
+                BlockValidationState st; if (!sim->SubmitHeader(static_cast<const CBlockHeader&>(*B.chain[k]), st)) break;
+            }
             auto [r, nb] = sim->SubmitBlock(B.chain.back(), a[2].get_bool());
             res.push_back(r ? "true" : "false"); res.push_back(nb ? "true" : "false");
         }
